@@ -177,7 +177,13 @@ impl Monitor for C02 {
                 let mut b = b.borrow_mut();
                 v2_case(stream, idx, seed, &mut b);
                 let h = if stream == "v2-ctl" { mix(idx ^ 0xC71) } else { hash_bytes(&b) };
-                judge(&b, rec, h);
+                if stream == "v2-ctl" || stream == "v2-dense" {
+                    spec::engine::placed(&b, idx / 3, |x| judge(x, rec, h));
+                } else {
+                    spec::sib::run_v2(&b, idx, 4, |x| {
+                        judge(x, rec, if x == &b[..] { h } else { hash_bytes(x) });
+                    });
+                }
             }),
         }
     }
